@@ -346,6 +346,7 @@ type directObs struct {
 	ResErr   string
 	Msg      string
 	After    *mval // the input read back after the call
+	Alias    string // non-empty: two casts of one source at different list types share storage
 }
 
 func c12DirectVM(v *mval, t *mtype, allow bool) (o directObs, class string) {
@@ -365,9 +366,27 @@ func c12DirectVM(v *mval, t *mtype, allow bool) (o directObs, class string) {
 			o.Res = m
 		}
 		o.After, _ = fromRV(*in)
+		// two admitted casts of ONE source at different list types must not share storage:
+		// otherwise a later push through one view breaks the other view's type
+		if o.Admitted && res != nil && *res != nil && t.K == mkList && (t.Elem.K == tInt || t.Elem.K == tStr) {
+			if rl, ok := (*res).(value.ValueList); ok {
+				other, elem := mtList(mtStr), value.NewValueInt(99)
+				if t.Elem.K == tStr {
+					other, elem = mtList(mtInt), value.NewValueString("z")
+				}
+				if res2, e2 := value.DeepCast(*in, other.astType(), noSpan, allow); e2 == nil && res2 != nil && *res2 != nil {
+					*rl.Values = append(*rl.Values, elem)
+					if m2, err := fromRV(*res2); err == nil && !conforms(m2, other) {
+						o.Alias = fmt.Sprintf("after pushing %s through the `%s` view, the `%s` view of the same source holds %s", showRV(*elem), t, other, m2)
+					}
+				}
+			}
+		}
 	})
 	return
 }
+
+func showRV(v value.Value) string { d, _ := v.Display(); return d }
 
 func c12DirectTree(v *mval, t *mtype, allow bool) (o directObs, class string) {
 	class, _ = guard("interpreter/value.DeepCast", func() {
@@ -386,6 +405,20 @@ func c12DirectTree(v *mval, t *mtype, allow bool) (o directObs, class string) {
 			o.Res = m
 		}
 		o.After, _ = fromIV(*in)
+		if o.Admitted && res != nil && *res != nil && t.K == mkList && (t.Elem.K == tInt || t.Elem.K == tStr) {
+			if rl, ok := (*res).(ivalue.ValueList); ok {
+				other, elem := mtList(mtStr), ivalue.NewValueInt(99)
+				if t.Elem.K == tStr {
+					other, elem = mtList(mtInt), ivalue.NewValueString("z")
+				}
+				if res2, e2 := ivalue.DeepCast(*in, other.astType(), noSpan, allow); e2 == nil && res2 != nil && *res2 != nil {
+					*rl.Values = append(*rl.Values, elem)
+					if m2, err := fromIV(*res2); err == nil && !conforms(m2, other) {
+						o.Alias = fmt.Sprintf("after pushing an element through the `%s` view, the `%s` view of the same source holds %s", t, other, m2)
+					}
+				}
+			}
+		}
 	})
 	return
 }
@@ -422,6 +455,9 @@ func c12Direct(tier string, idx int, r *Result) {
 			fails := c12Judge(ex, t, v, o.Admitted, o.Res, o.ResErr, o.Msg, true)
 			if o.After != nil && !mEqual(o.After, v) {
 				fails = append(fails, [2]string{"CAST:input-mutated", fmt.Sprintf("input after the call: %s", o.After)})
+			}
+			if o.Alias != "" {
+				fails = append(fails, [2]string{"CAST:views-share-storage", o.Alias})
 			}
 			c12Report(r, fails, tags, v, t, ex, cas)
 			if ex.Must == "open" || ex.Must == "may" {
